@@ -64,6 +64,10 @@ def parked_pairs(ctx, r, big=0):
                     ctx.violation("C02 command blocks waiting for the lock (%s)" % reqB["cmd"], "B did not return within 10 s", {"trace": trace + [step]}); return
                 pre_lock_fail = rb["exit"] != 0 and "lock busy" not in rb["stderr"]     # validation errors happen before the lock
                 if not pre_lock_fail and not (rb["exit"] == 1 and "lock busy" in rb["stderr"]):
+                    pk._reached()          # read A's trace once more: if it shows the unlock by now, A was not where we thought (see sched.Parked)
+                    if not sched.holds_lock(pk.steps_at_park):
+                        ctx.count(1, key=("skipped: parked outside the locked region",)); pk.resume(); pk = None
+                        continue
                     ctx.violation("C02 second writer admitted while the lock is held (%s ∥ %s)" % (reqA["cmd"], reqB["cmd"]),
                                   "B: exit %s %s" % (rb["exit"], (rb["stdout"] + rb["stderr"]).strip()[:120]), {"trace": trace + [step]}); return
                 if mid != before:
